@@ -275,6 +275,11 @@ def _divmod(chk, ctx) -> None:
         if loop is None:
             chk.ob('C01.divmod', cname, False, ctx.loc(fi, call), 'no distributing loop follows the division')
             continue
+        # the two results keep their value while they are handed out: the loop does not bind the names again (an inner division
+        # that re-uses them would leave the next element with a part of a part)
+        rebound = [n for st in loop.body for n in ast.walk(st) if isinstance(n, ast.Name) and isinstance(n.ctx, ast.Store) and n.id in (qn, rn)]
+        chk.ob('C01.divmod', cname + ':stable', not rebound, ctx.loc(fi, rebound[0]) if rebound else ctx.loc(fi, loop),
+               'quotient and remainder are not re-bound inside the loop that hands them out', got=[stmt_text(n) for n in rebound[:2]])
         # environment at the division (locals resolved) from any path reaching it
         env = None
         for p in ctx.paths(fi):
@@ -406,7 +411,10 @@ def _is_first_guard(c, lv, it) -> bool:
     if lv is None:
         return False
     if c == T.mk_not(T.truthy(lv)) or c == ('eq', T._pair(lv, T.num(0))):
-        return True     # index 0 of a range-like iteration
+        # index 0 is the first element only of an iteration that counts from 0 (range(n) or one of the index ranges of the state): for
+        # a list of winners or of hand types in play `not i` tests for seat 0 / type 0, which need not be in the list at all
+        return it is not None and ((it[0] == 'call' and it[1] == 'range' and len(it[2]) == 1) or
+                                   (it[0] == 'self' and it[1] in ('board_indices', 'player_indices', 'hand_type_indices', 'street_indices')))
     if c[0] == 'eq':
         a, b = c[1]
         other = b if a == lv else a if b == lv else None
